@@ -126,6 +126,9 @@ fn run<T: Sc>(case: &FamCase) -> Check {
     out.nontrivial = case.alpha_start != case.alpha_true;
     out.class(format!("S={}", case.s()));
     out.class(if case.w.is_some() { "weighted" } else { "unweighted" });
+    for r in case.regime() {
+        out.class(r);
+    }
     out.class(if case.sigma.is_empty() { "noiseless" } else { "noisy" });
     out.class(if case.f32 { "f32" } else { "f64" });
     out.class(if case.hand { "hand" } else { "builder" });
@@ -141,7 +144,7 @@ fn run<T: Sc>(case: &FamCase) -> Check {
 }
 
 pub fn c05_cfg() -> FamCfg {
-    FamCfg { max_s: 4, min_n: 30, max_n: 200, noise_lo: 1e-6, noise_hi: 1e-3, noiseless_16: 6, start_rel: 0.03, allow_f32: true, weights: true, calibrated_weights: false, extra_families: false, wide_weights: false, max_decays: 3 }
+    FamCfg { max_s: 4, min_n: 30, max_n: 200, noise_lo: 1e-6, noise_hi: 1e-3, noiseless_16: 6, start_rel: 0.03, allow_f32: true, weights: true, calibrated_weights: false, extra_families: false, wide_weights: false, max_decays: 3, units: true, long_data: true }
 }
 
 impl Property for C05 {
@@ -163,6 +166,9 @@ impl Property for C05 {
     }
     fn strategy(&self, _tier: Tier) -> BoxedStrategy<FamCase> {
         family_strategy(c05_cfg()).boxed()
+    }
+    fn pool_of(&self, case: &Self::Case) -> Option<usize> {
+        case.pool_size()
     }
     fn check(&self, case: &FamCase) -> Check {
         if case.f32 {
